@@ -746,6 +746,56 @@ func (w *dtWalker) assume(st *dtState, key, kind string, cval constant.Value, tr
 	}
 }
 
+// stringEmptinessTest: bo compares len(s) of a string s with 0 or 1 so that its truth means "s is empty" (empty=true)
+// or "s is not empty" (empty=false).
+func stringEmptinessTest(bo *ssa.BinOp) (ssa.Value, bool, bool) {
+	lenArg := func(v ssa.Value) ssa.Value {
+		call, ok := v.(*ssa.Call)
+		if !ok {
+			return nil
+		}
+		if b, ok := call.Call.Value.(*ssa.Builtin); !ok || b.Name() != "len" || len(call.Call.Args) != 1 {
+			return nil
+		}
+		if bt, ok := call.Call.Args[0].Type().Underlying().(*types.Basic); !ok || bt.Info()&types.IsString == 0 {
+			return nil
+		}
+		return call.Call.Args[0]
+	}
+	op := bo.Op
+	x, y := bo.X, bo.Y
+	if lenArg(x) == nil && lenArg(y) != nil {
+		// constant on the left: mirror the comparison
+		x, y = y, x
+		switch op {
+		case token.LSS:
+			op = token.GTR
+		case token.GTR:
+			op = token.LSS
+		case token.LEQ:
+			op = token.GEQ
+		case token.GEQ:
+			op = token.LEQ
+		}
+	}
+	s := lenArg(x)
+	k, isC := constInt(y)
+	if s == nil || !isC {
+		return nil, false, false
+	}
+	switch {
+	case k == 0 && (op == token.EQL || op == token.LEQ):
+		return s, true, true
+	case k == 0 && (op == token.NEQ || op == token.GTR):
+		return s, false, true
+	case k == 1 && op == token.LSS:
+		return s, true, true
+	case k == 1 && op == token.GEQ:
+		return s, false, true
+	}
+	return nil, false, false
+}
+
 // evalCond: returns "true"/"false"/"fork"/"" with literal description.
 func (w *dtWalker) evalCond(st *dtState, cond ssa.Value) (string, string, string, constant.Value) {
 	v, neg := unwrapNot(cond)
@@ -781,7 +831,41 @@ func (w *dtWalker) evalCond(st *dtState, cond ssa.Value) (string, string, string
 		}
 		return flip("false"), "", "", nil
 	}
+	decideEq := func(key string, cv constant.Value, eqMeansTrue bool) (string, string, string, constant.Value) {
+		if key == "" {
+			return "", "", "", nil
+		}
+		if kn := st.path.know[key]; kn != nil {
+			if kn.eq != nil {
+				r := constant.Compare(*kn.eq, token.EQL, cv)
+				if !eqMeansTrue {
+					r = !r
+				}
+				return fmt.Sprint(r), "", "", nil
+			}
+			for _, n := range kn.neq {
+				if constant.Compare(n, token.EQL, cv) {
+					return fmt.Sprint(!eqMeansTrue), "", "", nil
+				}
+			}
+		}
+		if eqMeansTrue {
+			return "fork", key, "eq", cv
+		}
+		return "forkneg", key, "eq", cv
+	}
 	if bo, ok := v.(*ssa.BinOp); ok {
+		// emptiness of a string spelled with len(): len(s) == 0, len(s) > 0, len(s) != 0, len(s) < 1 ... reads s == ""
+		if sv, empty, ok := stringEmptinessTest(bo); ok {
+			if cv, known := w.constOfVal(st, sv); known && cv.Kind() == constant.String {
+				r := (constant.StringVal(cv) == "") == empty
+				if neg {
+					r = !r
+				}
+				return fmt.Sprint(r), "", "", nil
+			}
+			return decideEq(w.keyOf(st, sv), constant.MakeString(""), empty != neg)
+		}
 		switch bo.Op {
 		case token.EQL, token.NEQ:
 			// nil test
@@ -856,28 +940,7 @@ func (w *dtWalker) evalCond(st *dtState, cond ssa.Value) (string, string, string
 				}
 				return "forkneg", bkey, "bool", nil
 			}
-			if key == "" {
-				return "", "", "", nil
-			}
-			eqMeansTrue := (bo.Op == token.EQL) != neg
-			if kn := st.path.know[key]; kn != nil {
-				if kn.eq != nil {
-					r := constant.Compare(*kn.eq, token.EQL, cv)
-					if !eqMeansTrue {
-						r = !r
-					}
-					return fmt.Sprint(r), "", "", nil
-				}
-				for _, n := range kn.neq {
-					if constant.Compare(n, token.EQL, cv) {
-						return fmt.Sprint(!eqMeansTrue), "", "", nil
-					}
-				}
-			}
-			if eqMeansTrue {
-				return "fork", key, "eq", cv
-			}
-			return "forkneg", key, "eq", cv
+			return decideEq(key, cv, (bo.Op == token.EQL) != neg)
 		case token.LSS, token.LEQ, token.GTR, token.GEQ:
 			lc, lok := w.constOfVal(st, bo.X)
 			rc, rok := w.constOfVal(st, bo.Y)
